@@ -38,6 +38,7 @@ func runC13(c *Ctx) {
 	c13Decode(c, "C13.R2")
 	c13R3(c)
 	c13NodesDeref(c)
+	commaOkDeref(c, "C13.R6b", pkgFuncs(c.P, "pkg/gossip"), 1)
 	c13R4(c)
 	c13Errs(c)
 	if g := newGossipAnchors(c.P); g.ok {
@@ -1016,11 +1017,14 @@ func c13Errs(c *Ctx) {
 		fns = append(fns, fn)
 	}
 	errDiscipline(c, "C13.R7", fns, 12)
-	c.floor("C13.R8", 5)
-	if fn := p.Func(gsPkg, "streamListener.handleConn"); fn != nil {
-		rejectsMismatch(c, "C13.R8", fn, 1)
-	} else {
-		c.fail("C13.anchor", "streamListener.handleConn", token.NoPos, "not found")
+	c.floor("C13.R8", 10)
+	for _, name := range []string{"streamListener.handleConn", "packetListener.handlePacket"} {
+		if fn := p.Func(gsPkg, name); fn != nil {
+			rejectsMismatch(c, "C13.R8", fn, 1)
+			dispatchOnlyForVersion(c, "C13.R8", fn)
+		} else {
+			c.fail("C13.anchor", name, token.NoPos, "not found")
+		}
 	}
 	for _, name := range []string{"decodeDigest", "decodeDelta"} {
 		if fn := p.Func(gsPkg, name); fn != nil {
